@@ -274,11 +274,19 @@ def alias_of_later_global_constant(r):
     return prog(["g0", "g1"], [f, g], main, ["alias", "later_global_constant", "called_fn"])
 
 
+def function_ending_in_intrinsic(r):
+    """the last statement of a function is a call of an instruction wrapper (yield_, sleep), not of a user function"""
+    f = fn("f0", 1, [], [wr(var("p0"), 1), YIELD], False)
+    g = fn("f1", 1, [], [wr(bin_("+", var("p0"), num(1)), 2), ("effect", "EKsleep", "sleep({0})", [num(2)])], False)
+    main = [("expr", call("f0", num(6))), ("expr", call("f0", rd(0))), ("expr", call("f1", num(1))), ("expr", call("f1", rd(1)))]
+    return prog([], [f, g], main, ["tail_position_intrinsic", "called_fn"])
+
+
 ALL = [param_mutation, param_mutation_twice, alias_outlives_source, alias_chain, callee_via_symbolless_function,
        callee_via_two_symbolless, nested_loops_innermost_only, while_in_for, inlined_return_register, temp_across_call,
        range_down_exact, bound_reread, early_return_with_inner_call, unused_parameter, return_call_tail,
        suffix_named_inlined, modulo_negative, tiny_constants, tail_into_inlined, tail_from_inlined_host, tail_chain,
-       alias_of_later_global_constant]
+       alias_of_later_global_constant, function_ending_in_intrinsic]
 
 
 def programs(rng):
